@@ -38,7 +38,7 @@ TOKEN = re.compile(
 INSERTS = ["(", ")", "[", "]", "{", "}", "?", ":", ",", ".", "&&", "||", "!", "-", "+", "*", "/", "%", "==", "<", "in", "'", '"', "'''", '"""', "\\", "\n", "\t", " ", "//", "0x", "1e", "1.", "u", "b'", "r\"", "$", "@", "#", "~", "^", "&", "|", "=", ";", "`", "\x00", "\x7f", "\u00e9", "\u4e2d", "\U0001f431", "\ufeff", "\u2028", "\r", "\r\n", "\x0c", "true", "null", "has", "as", "if", "return", "9999999999999999999999"]
 
 ILL_FORMED = [
-    "null.map(x, x)", "1.map(x, x)", "'abc'.map(x, x)", "[1].map(x)", "[1].map()", "[1].map(1, 2)", "[1].map(x.y, 1)", "[1].map(x, x, x)", "[1].filter()",
+    "[1].filter(.e, false)", "[1].map(.e, .e)", "1 in in[1]", "null.map(x, x)", "1.map(x, x)", "'abc'.map(x, x)", "[1].map(x)", "[1].map()", "[1].map(1, 2)", "[1].map(x.y, 1)", "[1].map(x, x, x)", "[1].filter()",
     "[1].all(1, true)", "[1].exists('a', true)", "[1].exists_one()", "[1].exists_one(x)", "{}.map(x, x)", "{1: 2}.filter(k, k)", "[1].map([x], 1)",
     "[1].map(x + 1, x)", "[1].map(x(), x)", "[1].reduce(r, i, 0, r + i)", "[1].reduce()", "[1].reduce(r, i)", "[1].min()", "[].min()", "['a', 1].min()", "[null].min()",
     "has()", "has(1)", "has(x)", "has(x, y)", "has(1.f)", "has([1][0])", "has({}.a.b)", "has(null.a)", "has('a'.b)", "has(x.y)", "has({'a': 1}.a, 1)",
@@ -246,6 +246,11 @@ def check_eval(acc, src: str, benv, origin: str, node=None, tag=None):
                 sh = diag.shape(m, lambda x: diag.coarse(o(x)))
                 slug = f"{r} {sh} X:{mo[2]}@{mo[1]}:{mo[3]}"
                 detail = f" minimal sub-expression {lang.to_text(m)!r}"
+                if mo[2] == "SyntaxError" and mo[1] == "program" and not sh.startswith(("var:python-keyword", "field:python-keyword")) and diag.has_python_keyword_name(m):
+                    # localisation stops above an identifier that does not parse on its own (`in`): attribute the failure to the keyword
+                    # spelling when the same tree with those names re-spelled no longer fails
+                    if o(diag.rename_python_keywords(m))[0] != "X":
+                        slug = f"{r} var:python-keyword (in {sh.split(' (')[0]}) X:{mo[2]}@{mo[1]}:{mo[3]}"
             except Exception as ex:
                 detail = f" (localisation failed {type(ex).__name__})"
         if slug is None:
